@@ -18,7 +18,7 @@ import (
 // element alphabets (DESIGN §C38). str lists cannot carry the empty element (an empty line is
 // indistinguishable from "no element" at the end of a stream) nor space-edged ones (the str reader trims).
 var alphaJSON = []string{"", "a", "b", "B", "a b", "10", "9", "é", "\""}
-var alphaStr = []string{"a", "b", "B", "a b", "10", "9", "é", "\""}
+var alphaStr = []string{"a", "b", "B", "a b", "10", "9", "é", "\"", "\xffab"} // the last one: malformed UTF-8 (str lists only)
 
 type wit struct {
 	Enc  string   `json:"enc"` // "json" (JSON string array on json-typed stdin) or "str" (one element per line, str-typed stdin)
@@ -49,40 +49,52 @@ func literal(name string, args []string) string {
 	return strings.TrimSpace("<stdin> -> " + name + " " + strings.Join(args, " "))
 }
 
-func runes(s string) []rune { return []rune(s) }
+// chars splits s into characters, keeping the original bytes: a byte that is not valid UTF-8 is one
+// character (what a byte-preserving "count characters" has to do with malformed input).
+func chars(s string) []string {
+	var out []string
+	for len(s) > 0 {
+		_, n := utf8.DecodeRuneInString(s)
+		out = append(out, s[:n])
+		s = s[n:]
+	}
+	return out
+}
+
+func joinChars(c []string) string { return strings.Join(c, "") }
 
 // leftModel: documented effect of `left n` ("the number of characters to return. If the parameter
 // is a negative then left counts from the right"; example: Monday -> left -3 -> Mon).
 func leftModel(e string, n int) string {
-	r := runes(e)
+	r := chars(e)
 	switch {
 	case n > 0:
 		if len(r) <= n {
 			return e
 		}
-		return string(r[:n])
+		return joinChars(r[:n])
 	case n < 0:
 		if len(r) < -n {
 			return ""
 		}
-		return string(r[:len(r)+n])
+		return joinChars(r[:len(r)+n])
 	}
 	return ""
 }
 
 func rightModel(e string, n int) string {
-	r := runes(e)
+	r := chars(e)
 	switch {
 	case n > 0:
 		if len(r) <= n {
 			return e
 		}
-		return string(r[len(r)-n:])
+		return joinChars(r[len(r)-n:])
 	case n < 0:
 		if len(r) < -n {
 			return ""
 		}
-		return string(r[-n:])
+		return joinChars(r[-n:])
 	}
 	return ""
 }
@@ -156,7 +168,7 @@ func findOp(name string) *opDef {
 func init() {
 	vlib.Register(&vlib.Check{
 		ID: "C38", Engine: "E2",
-		Rule:        "every list of 0..L elements (L=4 quick — lists of exactly 4 elements only through msort, mtac, prepend, append and match — 5 thorough) over {\"\", a, b, B, 'a b', 10, 9, é, \"} as a JSON string array on json-typed stdin, and over the same set without \"\" as a str list (one element per line), plus cyclic lists of 8/16/24/40 elements (3 strides x every start offset), is piped through msort, mtac, prepend/append (argument lists injected as variables), match+!match (needles a,1 quick; a,1,b,'a b',\",é,zz thorough), left/right (1,-1 quick; 1,-1,2 thorough) and prefix/suffix (the thorough tier applies the extra argument variants to every list except those of exactly 5 elements); stdout is decoded (JSON array with scalars stringified / lines; an empty stdout is the empty list as murex's own array readers define it) and compared with: sorted permutation in byte order; exact reverse; exact concatenation; match = order-preserving subsequence of the elements containing the needle and !match = its complement; per-element documented map of the same length (left/right count characters as documented). non-trivial = the expected output differs from the input list (for match: both parts non-empty); exit numbers and stderr are not asserted",
+		Rule:        "every list of 0..L elements (L=4 quick — lists of exactly 4 elements only through msort, mtac, prepend, append and match — 5 thorough) over {\"\", a, b, B, 'a b', 10, 9, é, \"} as a JSON string array on json-typed stdin, and over the same set without \"\" as a str list (one element per line), plus a 600-element and a 40x200-byte list (larger than the str reader buffer), a malformed-UTF-8 element in the str lists, and cyclic lists of 8/16/24/40 elements (3 strides x every start offset), is piped through msort, mtac, prepend/append (argument lists injected as variables), match+!match (needles a,1 quick; a,1,b,'a b',\",é,zz thorough), left/right (1,-1 quick; 1,-1,2 thorough) and prefix/suffix (the thorough tier applies the extra argument variants to every list except those of exactly 5 elements); stdout is decoded (JSON array with scalars stringified / lines; an empty stdout is the empty list as murex's own array readers define it) and compared with: sorted permutation in byte order; exact reverse; exact concatenation; match = order-preserving subsequence of the elements containing the needle and !match = its complement; per-element documented map of the same length (left/right count characters as documented). non-trivial = the expected output differs from the input list (for match: both parts non-empty); exit numbers and stderr are not asserted",
 		Run:         run,
 		Replay:      replay,
 		Assumptions: []string{"element alphabet and length bounds as stated in rule", "an empty stdout is read as the empty list (lang.ArrayTemplate does the same), so the json writers' 'no data returned' error for an empty result is recorded as an outcome, not asserted"},
@@ -178,6 +190,22 @@ func listsFor(quick bool, alpha []string, fn func(l []string) bool) {
 		return cont
 	})
 	if !cont {
+		return
+	}
+	// lists larger than the 4 KiB read buffer of the str reader: 600 short distinct elements in a
+	// scrambled order, and 40 elements of 200 bytes
+	big := make([]string, 600)
+	for i := range big {
+		big[i] = fmt.Sprintf("e%04d", (i*7919)%600)
+	}
+	if !fn(big) {
+		return
+	}
+	wide := make([]string, 40)
+	for i := range wide {
+		wide[i] = fmt.Sprintf("w%02d", (i*17)%40) + strings.Repeat("x", 197)
+	}
+	if !fn(wide) {
 		return
 	}
 	for _, n := range []int{8, 16, 24, 40} {
